@@ -48,7 +48,7 @@ CHECKS = {
         runs=[dict(engine="shipsim", test="TestC01", quick=dict(checks=40000, shards=4, timeout=600),
                    thorough=dict(checks=1600000, shards=12, timeout=3000)),
               # hub level: a real peer keeps knocking while the user registers / cancels / unregisters
-              dict(engine="hubnet", test="TestC01Hub", shrinktime="1s", quick=dict(checks=6, shards=3, timeout=1200),
+              dict(engine="hubnet", test="TestC01Hub", shrinktime="1s", quick=dict(checks=12, shards=4, timeout=1200),
                    thorough=dict(checks=60, shards=4, timeout=6000), env=dict(VERIF_BATCH="8"))],
     ),
     "C04": dict(
